@@ -439,6 +439,7 @@ func (w *world) passive(out *bufio.Writer, kinds map[string]int) {
 	var steps []string
 	nseg := 1 + w.r.Intn(5)
 	accepted := false
+	est := "[]"
 	for k := 0; k < nseg && !accepted; k++ {
 		var t netx.TCPSeg
 		x := w.r.Intn(100)
@@ -495,6 +496,7 @@ func (w *world) passive(out *bufio.Writer, kinds map[string]int) {
 			case 3:
 				if e, _, err := lep.Accept(); err == nil {
 					accepted = true
+					est = estSummary(e)
 					e.Close()
 				}
 			}
@@ -519,7 +521,7 @@ func (w *world) passive(out *bufio.Writer, kinds map[string]int) {
 		}
 	}
 	mtuMss := 1480 - 20
-	fmt.Fprintf(out, "CPassive %s %s %d %d (%s) %s [%s]\n", coqSeg(syn), netx.B(sack), rcvBuf, mtuMss, coqFrame(synack), netx.B(accepted), strings.Join(steps, ";"))
+	fmt.Fprintf(out, "CPassive %s %s %d %d (%s) %s [%s] %s\n", coqSeg(syn), netx.B(sack), rcvBuf, mtuMss, coqFrame(synack), netx.B(accepted), strings.Join(steps, ";"), est)
 }
 
 func cookieTS() uint32 { return uint32(time.Now().Unix()>>6) & 255 }
@@ -565,6 +567,12 @@ func (w *world) cookie(out *bufio.Writer, kinds map[string]int) {
 			seqd = 1 + uint32(w.r.Intn(1000)) // a different peer sequence number invalidates the cookie
 		}
 		t := netx.TCPSeg{Seq: irs + 1 + seqd, Ack: cookie + 1 + d, Flags: netx.FlagAck, Wnd: 4000, Opts: tsOpt(w.r.Bool())}
+		if w.r.Intn(5) == 0 {
+			// the same acknowledgement on a segment that is not a bare ACK (e.g. the RST|ACK a
+			// host sends in answer to an unexpected SYN-ACK: backscatter of a spoofed SYN flood)
+			kinds["c-ack-other-flags"]++
+			t.Flags |= []byte{netx.FlagRst, netx.FlagRst, netx.FlagFin, netx.FlagPsh, netx.FlagRst | netx.FlagPsh}[w.r.Intn(5)]
+		}
 		w.inject(t)
 		waitParked(lep, 3*time.Second)
 		got := w.frames()
@@ -689,4 +697,28 @@ func main() {
 		}
 	}
 	fmt.Fprintf(out, "# event kinds: %v\n", kinds)
+}
+
+// estSummary prints the fields of an accepted connection that Model/TcpEst.v est_summary lists, once
+// its protocol goroutine is parked (an empty list if that does not happen in time).
+func estSummary(e tcpip.Endpoint) string {
+	dl := time.Now().Add(2 * time.Second)
+	for !(tcp.VerifSnapshot(e).HasSndRcv && tcp.VerifQuiescent(e)) {
+		if time.Now().After(dl) {
+			return "[]"
+		}
+		time.Sleep(50 * time.Microsecond)
+	}
+	v := tcp.VerifSnapshot(e)
+	es := 100 + v.EState
+	if v.EState == 4 {
+		es = 0
+	}
+	ts := 0
+	if v.TsOk {
+		ts = 1
+	}
+	return fmt.Sprintf("[%d;%d;%d;%d;%d;%d;%d;%d;%d;%d;%d;%d;%d;%d;%d;%d;%d;%d;%d;%d]", v.RcvNxt, v.RcvAcc, v.RcvWndScale, v.PendSize,
+		v.Cwnd, v.SndWnd, v.SndUna, v.SndNxt, v.SndNxtList, v.TState, v.Rto, v.MaxPayload, v.SndWndScale, v.MaxSentAck, v.RttSeq, v.FrLast,
+		v.RcvBufSize, v.SndBufSize, es, ts)
 }
